@@ -1,32 +1,44 @@
 (* Properties_C02.v - concurrent step-file writers and readers are serialised.
    System: LockDefs.v - any number of processes, each performing
-   open, flock, read, [truncate, write], unlock as separate atomic steps, under
+   open, flock, read, [truncate, write ... write/close], unlock as separate atomic steps, under
    ANY schedule (list of process ids of any length; steps that are not enabled
    are skipped).  [upd p c] is what process p writes after reading c (None for
    readers and rejected writes); for robsd-step it is [ops_upd ops] built from
-   the C01 model (LockSpec.v).  [eff f0 l] = the content after the processes of
-   l ran one at a time in that order.
+   the C01 model (LockSpec.v).  [mids p c] are the contents the file passes through while the
+   new content c is being written (several write(2) calls); every theorem holds for every [mids].
+   [eff f0 l] = the content after the processes of l ran one at a time in that order.
+
+   The property speaks of readers and writers that TAKE the lock (robsd-step -R / -W, robsd-report,
+   robsd-regress-html all go through steps_parse).  What a reader that does not lock can see is
+   stated too (C02_file_at_every_state) and is not always a committed prefix
+   (C02_reader_without_lock_refuted).
+   The order of the calls in step.c / robsd-step.c is regenerated from the source (Gen_Lock) and
+   proved to be the order of the transition system (C02_source_order_is_model_order).
    Assumed (kernel): flock grants the lock only when it is free; the operations
-   between two sync points are atomic; a crash inside the critical section is
-   outside the property's quantifier (schedules only). *)
-From Robsd Require Import Lock.LockSpec Lock.LockProofs.
+   between two sync points are atomic; a crash or a refused write inside the critical section is
+   outside the property's quantifier (schedules only) - what a refused write does is
+   C02_refused_write_under_lock_refuted. *)
+From Robsd Require Import Lock.LockSpec Lock.LockProofs Lock.LockOracle Lock.LockBridge Lock.LockOps Lock.LockTie.
+From Robsd Require Import Step.StepSpec Step.StepRows Step.StepWrite Step.StepHistory Step.StepFault Step.StepExit0
+  Step.StepRenumber Step.StepLatest Step.StepRead Interp.InterpSpec.
+From RobsdGen Require Import Gen_Step Gen_Lock.
 Local Open Scope N_scope.
 
-Theorem C02_mutex : forall upd f0 s p q,
-  reachable upd f0 s -> mid (pcs s p) -> mid (pcs s q) -> p = q.
+Theorem C02_mutex : forall upd mids f0 s p q,
+  reachable upd mids f0 s -> mid (pcs s p) -> mid (pcs s q) -> p = q.
 Proof. exact mutual_exclusion. Qed.
 Print Assumptions C02_mutex.
 
-Theorem C02_only_holder_writes : forall upd f0 s p s',
-  reachable upd f0 s -> step upd s p = Some s' -> file s' <> file s -> lock s = Some p.
+Theorem C02_only_holder_writes : forall upd mids f0 s p s',
+  reachable upd mids f0 s -> step upd mids s p = Some s' -> file s' <> file s -> lock s = Some p.
 Proof. exact only_holder_writes. Qed.
 Print Assumptions C02_only_holder_writes.
 
-(* no reader (or writer) ever sees a partially written or empty intermediate:
-   what it read is the complete result of a prefix of the lock order *)
-Theorem C02_reads_see_committed_prefix : forall upd f0 s p,
-  reachable upd f0 s ->
-  (pcs s p = PRead \/ pcs s p = PBeforeTrunc \/ pcs s p = PTruncated \/ pcs s p = PWritten \/ pcs s p = PDone) ->
+(* no reader (or writer) that locks ever sees a partially written or empty intermediate:
+   what it read is the complete result of a prefix of the lock order - although the file does
+   hold empty and partial contents at times (C02_reader_without_lock_refuted) *)
+Theorem C02_reads_see_committed_prefix : forall upd mids f0 s p,
+  reachable upd mids f0 s -> has_read (pcs s p) ->
   exists pre post, log s = pre ++ p :: post /\ snaps s p = eff upd f0 pre.
 Proof. exact snapshot_is_committed_prefix. Qed.
 Print Assumptions C02_reads_see_committed_prefix.
@@ -34,42 +46,155 @@ Print Assumptions C02_reads_see_committed_prefix.
 (* no update is lost: once every started process has finished, the file is the
    result of applying them one at a time in the order of lock acquisition, each
    exactly once *)
-Theorem C02_serialisable : forall upd f0 s,
-  reachable upd f0 s -> (forall q, pcs s q = PDone \/ before_lock (pcs s q)) ->
+Theorem C02_serialisable : forall upd mids f0 s,
+  reachable upd mids f0 s -> (forall q, pcs s q = PDone \/ before_lock (pcs s q)) ->
   lock s = None /\ file s = eff upd f0 (log s) /\ NoDup (log s) /\
   (forall q, In q (log s) <-> pcs s q = PDone) /\
   (forall q, pcs s q = PDone -> exists pre post, log s = pre ++ q :: post /\ snaps s q = eff upd f0 pre).
 Proof. exact quiescent_is_serial. Qed.
 Print Assumptions C02_serialisable.
 
-(* the same, for robsd-step commands: what each process reports is what the
-   command reports when run alone on the result of the processes before it *)
-Theorem C02_robsd_step_reports : forall ops f0 s p o,
-  reachable (ops_upd ops) f0 s -> pcs s p = PDone -> nth_error ops p = Some o ->
+(* at EVERY reachable state, quiescent or not, what the file holds: the committed result when the
+   lock is free; while h holds it, the result of those before h, or nothing (h truncated), or one of
+   the intermediate contents of h's rewrite, or h's complete result.  The empty and intermediate
+   contents exist only while the lock is held *)
+Theorem C02_file_at_every_state : forall upd mids f0 s,
+  reachable upd mids f0 s ->
+  match lock s with
+  | None => file s = eff upd f0 (log s)
+  | Some h =>
+      exists l', log s = l' ++ [h] /\
+        (file s = eff upd f0 l' \/
+         (pcs s h = PTruncated /\ file s = []) \/
+         (exists todo c, pcs s h = PWriting todo /\ upd h (eff upd f0 l') = Some c /\ In (file s) (mids h c)) \/
+         (pcs s h = PWritten /\ file s = eff upd f0 (l' ++ [h])))
+  end.
+Proof. exact file_at_every_state. Qed.
+Print Assumptions C02_file_at_every_state.
+
+(* a reader that does NOT take the lock is outside the property: there are reachable states in which
+   the file is empty, or a strict prefix of the new content, and equals the result of no prefix of
+   the lock order; the reader that waits for the lock reads the complete content *)
+Theorem C02_reader_without_lock_refuted :
+  let s0 := run append_upd half_mids (init [120; 121]) [0; 0; 0; 0; 0; 1; 1]%nat in
+  let s1 := run append_upd half_mids s0 [0]%nat in
+  let s2 := run append_upd half_mids s1 [0; 0; 1; 1]%nat in
+  file s0 = [] /\ file s1 = [120] /\ lock s1 = Some 0%nat /\ pcs s1 1%nat = POpened /\
+  (forall pre, file s0 <> eff append_upd [120; 121] pre) /\ (forall pre, file s1 <> eff append_upd [120; 121] pre) /\
+  log s2 = [0; 1]%nat /\ snaps s2 1%nat = [120; 121; 97].
+Proof. exact partial_content_is_reachable_but_never_read. Qed.
+Print Assumptions C02_reader_without_lock_refuted.
+
+(* ---- robsd-step: C02 composed with C01 ------------------------------------------------------------------ *)
+
+(* the effect of serialised robsd-step processes is the C01 history of their write commands *)
+Theorem C02_eff_is_C01_history : forall ops f0 l,
+  eff (ops_upd ops) f0 l = fold_left model_step (writes_of ops l) f0.
+Proof. exact eff_is_history. Qed.
+Print Assumptions C02_eff_is_C01_history.
+
+(* any concurrent run from the empty step file, once quiescent, equals a serial C01 history: the
+   file represents the dictionary of the accepted writes in lock order, each process exactly once,
+   and a read returns the most recently written value in that order - for every set of commands and
+   every order of them: that no command renumbers a row is discharged by the id test of action_write
+   (C01, [eq_refl] on the switch read from robsd-step.c) *)
+Theorem C02_concurrent_history : forall ops mids s,
+  reachable (ops_upd ops) mids [] s -> (forall q, pcs s q = PDone \/ before_lock (pcs s q)) ->
+  NoDup (log s) /\ (forall q, In q (log s) <-> pcs s q = PDone) /\
+  file s = fold_left model_step (writes_of ops (log s)) [] /\
+  exists ds, Forall wfdata ds /\ sorted ds /\ reps ds (file s) /\
+    abs ds = fold_left spec_step (writes_of ops (log s)) [] /\
+    forall id fd, In fd fields ->
+      match latest (tagged [] (map cw (writes_of ops (log s))) []) id (fd_index fd) with
+      | None => find_data id ds = None
+      | Some x =>
+          exists d v, find_data id ds = Some d /\ x = Some v /\
+            (forall posarg, strtonum id_min id_max (cstr posarg) = NumOk (Z.of_nat (S (pos_of id ds))) ->
+               read_cmd (Some (file s)) (ById posarg) (ref (fd_name fd) ++ [NL]) = (0, render_value v ++ [NL])) /\
+            (forall n, first_named (cstr n) ds = Some d ->
+               read_cmd (Some (file s)) (ByName n) (ref (fd_name fd) ++ [NL]) = (0, render_value v ++ [NL]))
+      end.
+Proof. exact (fun ops mids s R Q => concurrent_history ops mids s R Q (never_renumbers_checked eq_refl _ [])). Qed.
+Print Assumptions C02_concurrent_history.
+
+(* what the harness compares per process ([final_reports]) is what the same command reports when
+   run alone on the file of the C01 history of the processes granted the lock before it *)
+Theorem C02_reports_are_serial : forall ops mids f0 s p o,
+  reachable (ops_upd ops) mids f0 s -> pcs s p = PDone -> nth_error ops p = Some o ->
   exists pre post, log s = pre ++ p :: post /\
-    op_out o (snaps s p) = op_out o (eff (ops_upd ops) f0 pre).
-Proof.
-  exact (fun ops f0 s p o R Hd _ =>
-    match snapshot_is_committed_prefix (ops_upd ops) f0 s p R (or_intror (or_intror (or_intror (or_intror Hd)))) with
-    | ex_intro _ pre (ex_intro _ post (conj Hl Hs)) =>
-        ex_intro _ pre (ex_intro _ post (conj Hl (f_equal (op_out o) Hs)))
-    end).
-Qed.
-Print Assumptions C02_robsd_step_reports.
+    nth_error (final_reports ops s) p = Some (op_out o (fold_left model_step (writes_of ops pre) f0)).
+Proof. exact reports_are_serial. Qed.
+Print Assumptions C02_reports_are_serial.
+
+(* the serialisability oracle the harness applies to real processes accepts every run of the model:
+   once the n processes have finished, final file and reports are those of the lock order, which is
+   among the orders the oracle tries *)
+Theorem C02_oracle_accepts_model : forall ops mids f0 s,
+  reachable (ops_upd ops) mids f0 s ->
+  (forall q, (q < length ops)%nat -> pcs s q = PDone) ->
+  (forall q, (length ops <= q)%nat -> pcs s q = PStart) ->
+  spec_ok_serial ops f0 (file s) (final_reports ops s) = true.
+Proof. exact serial_oracle_accepts_model. Qed.
+Print Assumptions C02_oracle_accepts_model.
+
+(* ---- the code has the order the model assumes -------------------------------------------------------------- *)
+
+(* the calls of a write command and of a read command, as they stand in step.c, walk through the
+   program counters of the model, each sync point at the counter it stands for *)
+Theorem C02_source_order_is_model_order :
+  walk PStart writer_calls = Some PDone /\
+  points PStart writer_calls =
+    [(0, POpened); (1, PLocked); (2, PRead); (3, PBeforeTrunc); (4, PTruncated); (5, PWritten); (6, PDone)]%nat /\
+  walk PStart reader_calls = Some PDone /\
+  points PStart reader_calls = [(0, POpened); (1, PLocked); (2, PRead); (6, PDone)]%nat.
+Proof. exact source_order_is_model_order. Qed.
+Print Assumptions C02_source_order_is_model_order.
+
+Theorem C02_command_call_order :
+  main_write_calls = [CParse; CActionWrite; CFree] /\
+  main_read_calls = [CParse; CRead; CFree] /\
+  action_write_calls = [CFind; CSetKeyval; CWrite].
+Proof. exact command_call_order. Qed.
+Print Assumptions C02_command_call_order.
+
+(* ---- what breaks it -------------------------------------------------------------------------------------------- *)
 
 (* without the lock the same processes lose an update *)
 Theorem C02_refuted_without_lock :
   let sched := [0; 0; 0; 1; 1; 1; 0; 0; 0; 0; 1; 1; 1; 1]%nat in
-  let s := run_nolock append_upd (init []) sched in
+  let s := run_nolock append_upd no_mids (init []) sched in
   pcs s 0%nat = PDone /\ pcs s 1%nat = PDone /\ file s = [98] /\
   file s <> eff append_upd [] [0; 1]%nat /\ file s <> eff append_upd [] [1; 0]%nat.
 Proof. exact lost_update_without_lock. Qed.
 Print Assumptions C02_refuted_without_lock.
 
+(* with the lock released after the truncation but before the data is in the file: a reader that
+   locks reads an empty file (no prefix of the lock order) and an update is lost *)
+Theorem C02_refuted_with_early_unlock :
+  let sched := [0; 0; 0; 0; 0; 1; 1; 1; 1; 2; 2; 2; 2; 2; 2; 2; 0; 0]%nat in
+  let s := run_early_unlock eu_upd no_mids (init [120]) sched in
+  pcs s 0%nat = PDone /\ pcs s 1%nat = PDone /\ pcs s 2%nat = PDone /\ log s = [0; 1; 2]%nat /\
+  snaps s 1%nat = [] /\
+  (forall pre, snaps s 1%nat <> eff eu_upd [120] pre) /\
+  file s = [120; 97] /\ file s <> eff eu_upd [120] (log s).
+Proof. exact early_unlock_breaks_both_clauses. Qed.
+Print Assumptions C02_refuted_with_early_unlock.
+
+(* a write refused by the file system inside the critical section (C01) is not one of the successful
+   writes, yet the next process starts from the empty file it left *)
+Theorem C02_refused_write_under_lock_refuted :
+  let f2 := fold_left model_step [([49], fw_full [111;110;101]); ([50], fw_full [116;119;111])] [] in
+  let r3 := write_cmdk (Some 0%nat) (Some f2) [51] (fw_full [116;104;114;101;101]) in
+  let r4 := write_cmdk None (snd r3) [52] (fw_full [102;111;117;114]) in
+  fst r3 = 1 /\ fst r4 = 0 /\
+  snd r4 <> Some (model_step f2 ([52], fw_full [102;111;117;114])).
+Proof. exact refused_write_under_lock_refuted. Qed.
+Print Assumptions C02_refused_write_under_lock_refuted.
+
 (* non-vacuity: two writers and a reader interleaved; the second writer is blocked until the first unlocks *)
 Example C02_example :
   let sched := [0; 1; 0; 1; 0; 0; 0; 0; 0; 1; 1; 1; 1; 1; 1; 2; 2; 2; 2; 2; 2; 2]%nat in
-  let s := run append_upd (init [120]) sched in
+  let s := run append_upd no_mids (init [120]) sched in
   log s = [0; 1; 2]%nat /\ file s = [120; 97; 98; 99] /\ snaps s 1%nat = [120; 97] /\
   (forall q, (q < 3)%nat -> pcs s q = PDone).
 Proof.
